@@ -592,10 +592,14 @@ type Action struct {
 	Unflushed bool
 	// API marks the exchange as a request to the proxy's API (Context.APIRequest)
 	// in the request modifier, as api.Forwarder does.
-	API      bool
-	Srv      *SrvConn      // proxy-side socket of the connection carrying the exchange
-	Returned chan struct{} // closed when the hijacking modifier call has returned
-	retOnce  sync.Once
+	API bool
+	// MarkInsecure: the request modifier calls the public Session.MarkInsecure()
+	// after looking at the session (a modifier is free to; what the proxy tells
+	// later requests about their connection must not depend on it).
+	MarkInsecure bool
+	Srv          *SrvConn      // proxy-side socket of the connection carrying the exchange
+	Returned     chan struct{} // closed when the hijacking modifier call has returned
+	retOnce      sync.Once
 }
 
 // NewAction returns an action with its channel.
@@ -620,27 +624,28 @@ type HijackObs struct {
 
 // Call is one invocation of the modifier.
 type Call struct {
-	Seq, ExitSeq int64
-	Side         string // "req" | "res"
-	XID          string
-	Method       string
-	Req          *http.Request
-	Ctx          *martian.Context
-	CtxID        string
-	Sess         *martian.Session
-	SessID       string
-	Secure       bool
-	Scheme       string
-	URLHost      string
-	ReqHost      string
-	RemoteAddr   string
-	TLS          *tls.ConnectionState
-	HijackedIn   bool // session already hijacked when the modifier was entered
-	Status       int
-	ReqWarnings  []string // Warning values on the request as seen at entry
-	PrevCtxLive  string   // xid of an earlier request of the connection whose context was still retrievable
-	Hij          *HijackObs
-	Gen          int // generation of the modifier pair that was called (see Recorder.Mod)
+	Seq, ExitSeq   int64
+	Side           string // "req" | "res"
+	XID            string
+	Method         string
+	Req            *http.Request
+	Ctx            *martian.Context
+	CtxID          string
+	Sess           *martian.Session
+	SessID         string
+	Secure         bool
+	MarkedInsecure bool // this (request-side) call ended with Session.MarkInsecure()
+	Scheme         string
+	URLHost        string
+	ReqHost        string
+	RemoteAddr     string
+	TLS            *tls.ConnectionState
+	HijackedIn     bool // session already hijacked when the modifier was entered
+	Status         int
+	ReqWarnings    []string // Warning values on the request as seen at entry
+	PrevCtxLive    string   // xid of an earlier request of the connection whose context was still retrievable
+	Hij            *HijackObs
+	Gen            int // generation of the modifier pair that was called (see Recorder.Mod)
 }
 
 // Recorder is installed as request and response modifier.
@@ -826,6 +831,12 @@ func (rc *Recorder) modifyRequest(req *http.Request, gen int) error {
 		}
 		if a.API && c.Ctx != nil {
 			c.Ctx.APIRequest()
+		}
+		if a.MarkInsecure && c.Sess != nil {
+			c.Sess.MarkInsecure()
+			rc.mu.Lock()
+			c.MarkedInsecure = true
+			rc.mu.Unlock()
 		}
 		if a.ReqErr {
 			err = ModErr("req", c.XID, a.ErrKind)
